@@ -289,7 +289,7 @@ theorem tieA_set_tx_power_and_ramp_time_1261 (self : Gen.PhyEnc1261.Sx126x) (cfg
 
 open Gen.PhyArith Rt in
 /-- the generated `convert_freq_in_hz_to_pll_step` in closed form (as `C17.pll126_closed`) -/
-theorem gen_pll_closed (f : Int) (h0 : 0 ≤ f) (h1 : f < 4096000000) :
+theorem tieA_pll126_closed (f : Int) (h0 : 0 ≤ f) (h1 : f < 4096000000) :
     Gen.PhyArith.Sx126x.convert_freq_in_hz_to_pll_step f = some ((f * 16384 + 7812) / 15625) := by
   unfold Gen.PhyArith.Sx126x.convert_freq_in_hz_to_pll_step
   rw [show SX126X_PLL_STEP_SCALED = 15625 by decide, show SX126X_PLL_STEP_SHIFT_AMOUNT = 14 from rfl]
@@ -318,7 +318,7 @@ SetRfFrequency with the four bytes of the PLL word, most significant first — e
 2^30 Hz (the chips reach 1.02 GHz), chip and prefix. -/
 theorem tieA_set_channel (self : Gen.PhyEnc1262.Sx126x) (f : Nat) (hf : f < 1073741824) (c : Chip) (log : List Rt.Phy.Ev) :
     view id (Gen.PhyEnc1262.Sx126x.set_channel self (f : Int) chipDev c log) = denote (Sx126x.setChannel f) c log := by
-  have hg := gen_pll_closed (f : Int) (by omega) (by omega)
+  have hg := tieA_pll126_closed (f : Int) (by omega) (by omega)
   have hm := model_pll_closed f hf
   have e : ((f : Int) * 16384 + 7812) / 15625 = (((f * 16384 + 7812) / 15625 : Nat) : Int) := by omega
   rw [e] at hg
